@@ -378,7 +378,7 @@ def replay_of(batch, k, extra=None):
 
 def run(ctx):
     rng = ctx.rng
-    nb = ctx.n(14, 300)
+    nb = ctx.n(14, 700)
     batches = make_batches(rng, nb)
     # deterministic corner batches: empty spectrum, single point, default parameters on the 36-direction grid
     # ------------------------------------------------------------------ implementation cases
